@@ -63,8 +63,7 @@ theorem f_O_top (s s' : St) (v0) (rest : List Sto) : Inv s → s.bufO = .top v0 
   case pt8 e b => exact f_O_top_pt8 s v0 rest e b h hpc hb
   case pt9 => exact f_O_top_pt9 s v0 rest h hpc hb
   case cl3 => exact f_O_top_cl3 s v0 rest h hpc hb
-  all_goals (exfalso; cases h; simp only [hpc, ownerLocked, carry, resetting, ownerFlight] at *)
-  all_goals tso_absurd
+  all_goals tso_absurd_core h hpc
 
 set_option maxHeartbeats 4000000 in
 theorem f_O_base (s s' : St) (v0) (rest : List Sto) : Inv s → s.bufO = .base v0 :: rest →
@@ -82,8 +81,7 @@ theorem f_O_base (s s' : St) (v0) (rest : List Sto) : Inv s → s.bufO = .base v
   case pt9 => exact f_O_base_pt9 s v0 rest h hpc hb
   case cl2 => exact f_O_base_cl2 s v0 rest h hpc hb
   case cl3 => exact f_O_base_cl3 s v0 rest h hpc hb
-  all_goals (exfalso; cases h; simp only [hpc, ownerLocked, carry, resetting, ownerFlight] at *)
-  all_goals tso_absurd
+  all_goals tso_absurd_core h hpc
 
 set_option maxHeartbeats 4000000 in
 theorem f_O_ptr (s s' : St) (i0 x0) (rest : List Sto) : Inv s → s.bufO = .ptr i0 x0 :: rest →
@@ -107,8 +105,7 @@ theorem f_O_ptr (s s' : St) (i0 x0) (rest : List Sto) : Inv s → s.bufO = .ptr 
   case po6 r => exact f_O_ptr_po6 s i0 x0 rest r h hpc hb
   case pt8 e b => exact f_O_ptr_pt8 s i0 x0 rest e b h hpc hb
   case pt9 => exact f_O_ptr_pt9 s i0 x0 rest h hpc hb
-  all_goals (exfalso; cases h; simp only [hpc, ownerLocked, carry, resetting, ownerFlight] at *)
-  all_goals tso_absurd
+  all_goals tso_absurd_core h hpc
 
 set_option maxHeartbeats 4000000 in
 theorem f_O_shift (s s' : St) (lo0 hi0 off0) (rest : List Sto) : Inv s → s.bufO = .shift lo0 hi0 off0 :: rest →
@@ -127,8 +124,7 @@ theorem f_O_shift (s s' : St) (lo0 hi0 off0) (rest : List Sto) : Inv s → s.buf
   case pt7 e b => exact f_O_shift_pt7 s lo0 hi0 off0 rest e b h hpc hb
   case pt8 e b => exact f_O_shift_pt8 s lo0 hi0 off0 rest e b h hpc hb
   case pt9 => exact f_O_shift_pt9 s lo0 hi0 off0 rest h hpc hb
-  all_goals (exfalso; cases h; simp only [hpc, ownerLocked, carry, resetting, ownerFlight] at *)
-  all_goals tso_absurd
+  all_goals tso_absurd_core h hpc
 
 set_option maxHeartbeats 4000000 in
 theorem f_O_cache (s s' : St) (x0) (rest : List Sto) : Inv s → s.bufO = .cache x0 :: rest →
@@ -139,8 +135,7 @@ theorem f_O_cache (s s' : St) (x0) (rest : List Sto) : Inv s → s.bufO = .cache
   intro pc hpc
   cases pc
   case po6 r => exact f_O_cache_po6 s x0 rest r h hpc hb
-  all_goals (exfalso; cases h; simp only [hpc, ownerLocked, carry, resetting, ownerFlight] at *)
-  all_goals tso_absurd
+  all_goals tso_absurd_core h hpc
 
 set_option maxHeartbeats 4000000 in
 theorem f_T_ptr3 (s : St) (p : Pid) (e0 : Elem) : Inv s → s.lock = .thief p →
